@@ -44,8 +44,10 @@ number of batches may be committed** (the gap left open by `C06_mergeOut_stable`
   (`ErrBatchCommitted`) or through no batch at all (the model's `no-batch`).
 * `RunOK` — two `uint32` range conditions on the RUN, which cannot be derived from the history's
   shape alone: when `Merge` is called the active file id + 1 fits `uint32` (`FileID` is a `uint32`);
-  when the database is restarted, every file of a pending merge directory is shorter than 4 GiB
-  (`DataPos.Offset/Size` are `uint32`: the hint file cannot express more).
+  when the database is restarted, every file of a pending FINISHED merge directory (marker present)
+  is shorter than 4 GiB (`DataPos.Offset/Size` are `uint32`: the hint file cannot express more).
+  `C01_refines_history_small` below DERIVES both from static bounds on the history (number of calls,
+  total estimated bytes written), so that all hypotheses are conditions on the history alone.
 -/
 namespace XixiKV.C01H
 open XixiKV XixiKV.Engine XixiKV.Engine.BatchP XixiKV.Engine.HistP
@@ -186,7 +188,8 @@ def WF (live : Bool) : List HOp → Bool
 /-- the `uint32` range conditions at the two places that need them -/
 def StepOK (dir : String) (s : St) : HOp → Prop
   | .merge _ => ∀ db, s.db = some db → db.activeId + 1 < 2 ^ 32
-  | .restart _ => ∀ md, s.world.get (mergeDirName dir) = some md → ∀ x ∈ md.data, x.2.bytes.size < 2 ^ 32
+  | .restart _ => ∀ md, s.world.get (mergeDirName dir) = some md → md.marker ≠ none →
+      ∀ x ∈ md.data, x.2.bytes.size < 2 ^ 32
   | _ => True
 
 def RunOK (dir : String) (s : St) : List HOp → Prop
